@@ -664,7 +664,10 @@ func (e *Engine) allocBlock(st *State, n int) T {
 // default "nothing else changes", and every loop head may assume that untouchable memory still has its
 // entry contents.
 
-type cellRange struct{ lo, hi T } // [lo, hi)
+type cellRange struct {
+	lo, hi T      // [lo, hi)
+	key    string // typed-heap key the cells belong to ("" = any heap): a scalar field named by &x.f
+}
 
 type frame struct {
 	entry    *State // state relative to which untouched memory is unchanged
@@ -849,6 +852,9 @@ func (e *Engine) frameInstance(st *State, key string, addr T, n int) {
 		old := e.heapGet(f.entry, key)
 		outside := []T{Lt(addr, f.bound)}
 		for _, c := range f.cells {
+			if c.key != "" && c.key != key {
+				continue // cells of another typed heap: this heap has nothing in the frame there
+			}
 			outside = append(outside, Or(Lt(addr, c.lo), Ge(addr, c.hi)))
 		}
 		var eqs []T
